@@ -449,11 +449,14 @@ impl LocalPeerService {
         match msg {
             LocalEvent::RoomDefinitionChanged(room) => {
                 let key = remote_key.lock().await;
-                if room.has_user(&key) {
+                if room.is_user_valid_at(&key, crate::date_utils::now()) {
                     inbound_query_service.add_allowed_room(room.id);
                     Self::send_event(event_sender, RemoteEvent::RoomDefinitionChanged(room.id))
                         .await
                         .map_err(|_| crate::Error::TimeOut("RoomDefinitionChanged".to_string()))?;
+                } else if room.has_user(&key) {
+                    //the peer is not a member of the room anymore: stop serving it
+                    inbound_query_service.remove_allowed_room(room.id);
                 }
             }
             LocalEvent::RoomDataChanged(rooms) => {
